@@ -48,6 +48,26 @@ struct GroupSpec {
 pub fn families(k: usize, r: usize) -> Vec<(String, Vec<usize>, Vec<usize>)> {
     let mut out: Vec<(String, Vec<usize>, Vec<usize>)> = Vec::new();
     let m = k.min(r);
+    // g. whole-field configurations: lose exactly the positions of a hyperplane half (bit b of the work
+    //    position equal to v), when what remains is still enough
+    {
+        let high_end = pow2ceil(r) + k;
+        let low_end = pow2ceil(k) + r;
+        if high_end == 65536 || low_end == 65536 {
+            // positions are rate dependent; describe the loss through shard indexes for BOTH layouts and keep
+            // those that leave >= k shards: loss of original i / recovery j decided by the bit of its index
+            for b in [0usize, 1, 5, 13, 14] {
+                for v in 0..2usize {
+                    let og: Vec<usize> = (0..k).filter(|i| (i >> b) & 1 != v).collect();
+                    let rg: Vec<usize> = (0..r).filter(|j| (j >> b) & 1 != v).collect();
+                    if og.len() + rg.len() >= k && og.len() < k {
+                        out.push((format!("hyperplane-bit{b}={v}"), og, rg));
+                    }
+                }
+            }
+        }
+    }
+
     // a. maximum loss, first recovery shards, keep the last originals
     out.push(("maxloss-first".into(), (m..k).collect(), (0..m).collect()));
     // b. maximum loss, last recovery shards, keep the first originals
@@ -223,7 +243,7 @@ pub fn run(ctx: &Ctx, rep: &mut Report) {
     let big: Vec<(usize, usize)> = if ctx.thorough() {
         vec![(255, 1), (256, 256), (257, 255), (1000, 100), (100, 1000), (4095, 4097), (32768, 32768), (61440, 4096), (4096, 61440), (65534, 2), (2, 65534), (65535, 1), (1, 65535)]
     } else {
-        vec![(255, 1), (257, 255), (100, 1000), (4095, 4097), (65535, 1), (10000, 10000), (1000, 20000), (20000, 1000)]
+        vec![(255, 1), (257, 255), (100, 1000), (4095, 4097), (65535, 1), (10000, 10000), (1000, 20000), (20000, 1000), (32768, 32768)]
     };
     let big: Vec<(usize, usize)> = if ctx.thorough() { big.into_iter().chain([(10000, 10000), (1000, 20000), (20000, 1000), (16385, 3), (3, 16385), (8193, 8193)]).collect() } else { big };
     let mut fam_specs: Vec<GroupSpec> = Vec::new();
